@@ -302,8 +302,8 @@ func (d Driver) Run(c *core.Ctx) error {
 		runGen(tlc.Opts{Module: "BoolOps", Config: cfg(4, 6, 1, "random", 60000, false), Seed: c.Seed, Timeout: 30 * time.Minute}, false, false)
 		runGen(tlc.Opts{Module: "BoolOps", Config: cfg(6, 6, 2, "random", 30000, false), Seed: c.Seed + 1, Timeout: 30 * time.Minute}, false, false)
 		runGen(tlc.Opts{Module: "BoolOps", Config: cfg(3, 5, 1, "random", 300, false), Seed: c.Seed + 2, Timeout: 30 * time.Minute}, true, false)
-		runCurved(tlc.Opts{Module: "CurvedOps", Config: ccfg(4, 3, 20000), Seed: c.Seed + 3, Timeout: 30 * time.Minute})
-		runCurved(tlc.Opts{Module: "CurvedOps", Config: ccfg(5, 2, 20000), Seed: c.Seed + 4, Timeout: 30 * time.Minute})
+		runCurved(tlc.Opts{Module: "CurvedOps", Config: ccfg(4, 3, 4000), Seed: c.Seed + 3, Timeout: 30 * time.Minute})
+		runCurved(tlc.Opts{Module: "CurvedOps", Config: ccfg(5, 2, 3000), Seed: c.Seed + 4, Timeout: 30 * time.Minute})
 	} else {
 		runGen(tlc.Opts{Module: "BoolOps", Config: cfg(2, 4, 1, "all", 0, false)}, false, true)
 		runGen(tlc.Opts{Module: "BoolOps", Config: cfg(4, 6, 1, "random", 8000, false), Seed: c.Seed}, false, false)
